@@ -12,6 +12,7 @@ import (
 	"database/sql"
 	"errors"
 	"fmt"
+	"math"
 	"sort"
 	"strings"
 
@@ -680,6 +681,89 @@ func (k *checker) sharedBase(matching []pred.Row) {
 	k.c.Inc(fmt.Sprintf("shared_base_with_%d_order_calls", len(ords)))
 }
 
+func failingRead(c *core.Ctx, n int) {
+	const special = 99999
+	if _, err := H.SQL.Exec("INSERT INTO rws(id,a,s,mark) VALUES (?,?,'x',0)", special, int64(math.MinInt64)); err != nil {
+		panic(err)
+	}
+	defer H.SQL.Exec("DELETE FROM rws WHERE id = ?", special)
+	root := H.DB.Session(&gorm.Session{})
+	// the failing row is the first (or only) one the statement produces
+	q := func() *gorm.DB {
+		return root.Model(&pred.Row{}).Select("id, abs(a) AS a, s").Where("id = ?", special)
+	}
+	type res struct {
+		name string
+		err  error
+		rows int64
+	}
+	var rs []res
+	{
+		var out []pred.Row
+		r := q().Find(&out)
+		rs = append(rs, res{"Find(&[]Row)", r.Error, int64(len(out))})
+	}
+	{
+		var out []map[string]interface{}
+		r := q().Find(&out)
+		rs = append(rs, res{"Find(&[]map)", r.Error, int64(len(out))})
+	}
+	{
+		var out []pred.Row
+		r := q().Scan(&out)
+		rs = append(rs, res{"Scan(&[]Row)", r.Error, int64(len(out))})
+	}
+	{
+		var out pred.Row
+		r := q().Scan(&out)
+		rs = append(rs, res{"Scan(&Row)", r.Error, r.RowsAffected})
+	}
+	{
+		var out map[string]interface{}
+		r := q().Scan(&out)
+		rs = append(rs, res{"Scan(&map)", r.Error, r.RowsAffected})
+	}
+	{
+		var out []int64
+		r := root.Model(&pred.Row{}).Where("id = ?", special).Pluck("abs(a)", &out)
+		rs = append(rs, res{"Pluck(abs(a))", r.Error, int64(len(out))})
+	}
+	{
+		var out pred.Row
+		r := q().Take(&out)
+		rs = append(rs, res{"Take(&Row)", r.Error, r.RowsAffected})
+	}
+	{
+		rows, err := q().Rows()
+		cnt := int64(0)
+		if err == nil {
+			for rows.Next() {
+				cnt++
+			}
+			err = rows.Err()
+			rows.Close()
+		}
+		rs = append(rs, res{"Rows()+Next+Err", err, cnt})
+	}
+	var failed, ok []string
+	for _, x := range rs {
+		if x.err != nil {
+			failed = append(failed, x.name)
+		} else {
+			ok = append(ok, fmt.Sprintf("%s (rows %d)", x.name, x.rows))
+		}
+	}
+	c.Inc("failing_read_blocks")
+	if len(failed) > 0 && len(ok) > 0 {
+		c.Violation("FailingRead", map[string]interface{}{"chain": `Model(&Row{}).Select("id, abs(a) AS a, s").Where("id = ?", k) on a row whose a is the smallest int64`,
+			"problems": []string{fmt.Sprintf("the read fails at run time (%v): reported by %v, but these paths reported success: %v", rs[0].err, failed, ok)}})
+		return
+	}
+	if len(failed) == len(rs) {
+		c.Shape("failing-read", n)
+	}
+}
+
 var errBound = errors.New("verif: batch bound exceeded")
 
 // batches runs FindInBatches and checks it against want (rows Find would return, pk order).
@@ -895,6 +979,12 @@ func run(c *core.Ctx) {
 			report(k2, "FindInBatches")
 		}
 	}
+	// (3) a read that fails while the database produces its first row (abs() of the smallest integer
+	// overflows at run time, after the query itself was accepted): the read paths agree here too - none of
+	// them may report success where the others report the error
+	if rep == 0 {
+		failingRead(c, n)
+	}
 	if c.WantSample() && n > 3 && rep > 0 {
 		c.Sample(map[string]interface{}{"rows": n, "batch_size": bs, "chain": base.desc(), "matching_ids": ids(matching),
 			"grid": fmt.Sprintf("FindInBatches over limit in {none,0..%d} x offset in {none,1..%d}", m+1, m+1)})
@@ -905,7 +995,7 @@ var Engine = &core.Engine{
 	ID:    "C15",
 	Level: "exploration",
 	Rule: "grid: every table size 0..12 (quick) / 0..40 (thorough) x every batch size 1..N+2 x repetitions (first without condition, others with a random C02 chain incl. Or); for each grid point FindInBatches is run for every limit in {none, 0..m+1} x offset in {none, 1..m+1} (m = matching rows) and compared with the reference window; " +
-		"then Find into []T/[]*T/array/[]map, Scan, Rows+ScanRows, Pluck per column, Count, First/Last/Take (struct, pointer, map) are compared with the reference under random order and override/cancel sequences of Limit/Offset, and once more from one reusable base (0..3 Order calls) whose derived handles are run after the base was used again; distinct = (size, batch, limit, offset, conditioned, rows delivered) resp. (size, calls, order, units); non-trivial = at least one row delivered",
+		"then Find into []T/[]*T/array/[]map, Scan, Rows+ScanRows, Pluck per column, Count, First/Last/Take (struct, pointer, map) are compared with the reference under random order and override/cancel sequences of Limit/Offset, and once more from one reusable base (0..3 Order calls) whose derived handles are run after the base was used again; a read that fails at run time while the first row is produced must fail on every path; distinct = (size, batch, limit, offset, conditioned, rows delivered) resp. (size, calls, order, units); non-trivial = at least one row delivered",
 	Assumptions: []string{
 		"keys have gaps; rows are inserted with raw SQL",
 		"Limit(0) is only used as the sole Limit call (LIMIT 0: Find returns nothing); mixed zero/positive sequences are not covered by the statement's override/cancel sentence and are not generated",
